@@ -1,6 +1,8 @@
 package chain
 
 import (
+	"math/big"
+
 	"pgregory.net/rapid"
 )
 
@@ -77,6 +79,37 @@ func GenSpec(t *rapid.T) *Spec {
 	s.RewardScale = uint64(rapid.SampledFrom([]int{0, 1, 1000, 100000}).Draw(t, "rewardScale"))
 	s.RewardProposed = uint64(rapid.IntRange(0, 3).Draw(t, "rewardProposed"))
 	s.RewardSigned = uint64(rapid.IntRange(0, 3).Draw(t, "rewardSigned"))
+	s.MinCommission = uint64(rapid.SampledFrom([]int{0, 0, 0, 20000, 50000, 100000}).Draw(t, "minCommission"))
+	// a nearly depleted common pool: a small multiple of the rewards the drawn stakes earn per epoch / block, so
+	// that some rewards fit and others do not (the "skip this reward" branches)
+	if rapid.IntRange(0, 2).Draw(t, "poolNearDepleted") == 0 && s.RewardScale > 0 {
+		var sum, max uint64
+		for _, st := range s.SelfStake {
+			f := s.RewardSigned
+			if f == 0 {
+				f = s.RewardProposed
+			}
+			r := new(big.Int).SetUint64(st)
+			r.Mul(r, new(big.Int).SetUint64(f*s.RewardScale))
+			r.Quo(r, big.NewInt(100_000_000))
+			if r.IsUint64() && r.Uint64() < 1<<40 {
+				sum += r.Uint64()
+				if r.Uint64() > max {
+					max = r.Uint64()
+				}
+			}
+		}
+		if sum > 0 {
+			switch rapid.IntRange(0, 2).Draw(t, "poolMode") {
+			case 0:
+				s.CommonPool = uint64(rapid.Uint64Range(0, 2*sum).Draw(t, "poolNear"))
+			case 1:
+				s.CommonPool = max - uint64(rapid.Uint64Range(0, max/2).Draw(t, "poolBelowMax"))
+			default:
+				s.CommonPool = sum + uint64(rapid.Uint64Range(0, max).Draw(t, "poolAboveSum"))
+			}
+		}
+	}
 	s.SlashAmount = uint64(rapid.SampledFrom([]int{1, 100, 100000, 2_000_000_000_000}).Draw(t, "slash"))
 	s.SlashFreeze = uint64(rapid.SampledFrom([]int{0, 1, 2, 1000000}).Draw(t, "freeze"))
 	s.MinTransact = uint64(rapid.SampledFrom([]int{0, 0, 1, 10}).Draw(t, "minTransact"))
